@@ -11,10 +11,18 @@ Local Open Scope N_scope.
 
 Definition tx_of (h : N) : P.tx := P.mkTx h 0 0 0.
 
-(* what one store write of the chain means for the pool object (lim = capacity of the pending list) *)
+(* what one store write of the chain means for the pool object (lim = capacity of the pending list).
+   [evf ts] = the header's EvictedTxs of the block whose body is ts. Regime: below the Proposal018 height
+   the executor keeps a failed transaction in the body AND lists it as evicted (evicted within body);
+   from Proposal018 on a transaction that cannot be added is left out of the body and only listed. The
+   theorem below is for evicted lists within the body (pre-018, and every block without evictions). *)
+Section Evicted.
+Variable evf : list N -> list N.
+Hypothesis evf_body : forall ts h, existsb (N.eqb h) (evf ts) = true -> existsb (N.eqb h) ts = true.
+
 Definition pstep (lim : N) (p : P.pool) (w : write) : P.pool :=
   match w with
-  | WExec ts => P.mark_executed p (map tx_of ts) []      (* updateTxPool: MarkExecuted(receipts, txs) *)
+  | WExec ts => P.mark_executed p (map tx_of ts) (evf ts) (* updateTxPool: MarkExecuted(receipts, txs, evicted) *)
   | WUnexec t => P.unmark1 lim p (tx_of t)               (* UnMarkExecuted: executed.Delete + pool.add *)
   | _ => p
   end.
@@ -42,10 +50,16 @@ Proof.
   cbn [map existsb P.thash tx_of]. now rewrite IH.
 Qed.
 
-Lemma R_mark : forall p ts h, R (P.mark_executed p (map tx_of ts) []) h = R p h && negb (existsb (N.eqb h) ts).
+Lemma memN_app : forall h a b, P.memN h (a ++ b) = P.memN h a || P.memN h b.
+Proof. intros. unfold P.memN. apply existsb_app. Qed.
+
+Lemma R_mark : forall p ts h, R (P.mark_executed p (map tx_of ts) (evf ts)) h = R p h && negb (existsb (N.eqb h) ts).
 Proof.
-  intros. unfold R, P.in_received, P.mark_executed. cbn [P.received]. rewrite app_nil_r.
-  rewrite (memN_filter_hash (fun k => negb (P.memN k (P.hashes (map tx_of ts))))). now rewrite hashes_tx_of.
+  intros. unfold R, P.in_received, P.mark_executed. cbn [P.received].
+  rewrite (memN_filter_hash (fun k => negb (P.memN k (P.hashes (map tx_of ts) ++ evf ts)))).
+  rewrite memN_app, hashes_tx_of. f_equal. f_equal.
+  destruct (existsb (N.eqb h) ts) eqn:E1; auto. cbn.
+  destruct (P.memN h (evf ts)) eqn:E2; auto. unfold P.memN in E2. apply evf_body in E2. congruence.
 Qed.
 
 Lemma keys_del : forall k e h, P.memN h (map fst (P.del_key k e)) = P.memN h (map fst e) && negb (h =? k).
@@ -69,7 +83,7 @@ Proof.
   destruct (N.eqb_spec h (P.thash t)); cbn. now rewrite orb_true_r. now rewrite andb_true_r.
 Qed.
 
-Lemma X_mark : forall p ts h, X (P.mark_executed p (map tx_of ts) []) h = X p h || existsb (N.eqb h) ts.
+Lemma X_mark : forall p ts h, X (P.mark_executed p (map tx_of ts) (evf ts)) h = X p h || existsb (N.eqb h) ts.
 Proof.
   intros. unfold X, P.in_executed, P.exec_keys, P.mark_executed. cbn [P.executed].
   now rewrite X_fold_put, hashes_tx_of.
@@ -144,7 +158,7 @@ Proof.
       + intro t. rewrite X_mark, Hrel. cbn [exec]. apply orb_comm.
       + intros t Ht. rewrite R_mark in Ht. apply andb_prop in Ht. destruct Ht as [H1 H2].
         rewrite X_mark, (Hdis t H1). apply negb_true_iff in H2. now rewrite H2.
-      + pose proof (len_mark p (map tx_of ts) []). lia.
+      + pose proof (len_mark p (map tx_of ts) (evf ts)). lia.
       + intros t H. cbn [exec]. destruct (existsb (N.eqb t) ts) eqn:Em; [now left|].
         destruct H as [H|H]. left. exact H. right. now rewrite R_mark, H, Em.
     - (* WUnexec *)
@@ -161,3 +175,5 @@ Proof.
   destruct (IH (apply1 s w) (pstep lim p w) S1 S2) as [I1 [I2 I3]]. lia.
   split; [exact I1|]. split; [exact I2|]. intros t Hk Hf. apply I3; auto.
 Qed.
+
+End Evicted.
